@@ -246,7 +246,7 @@ package stack
 //@   assert after-store Args.Values#3: [inaccurateMarkIsTheQuestionMark C01] len(cur.Values) >= 1 && (cur.Values[len(cur.Values)-1].IsInaccurate <==> (tokN >= 1 && tokB[tokN-1] == 63)) && len(numTok) == tokN - (cur.Values[len(cur.Values)-1].IsInaccurate ? 1 : 0) && (forall k :: 0 <= k && k < len(numTok) ==> numTok[k] == tokB[k])
 //@   ensures [errorGivesEmptyArgs C01] result1 != nil ==> len(result0.Values) == 0 && !result0.Elided
 //@   assert after-store Args.Values#2: [tooLargeLeafIsWellFormed C01 C05] len(cur.Values) >= 1 && cur.Values[len(cur.Values)-1].IsOffsetTooLarge && cur.Values[len(cur.Values)-1].Value == 0 && !cur.Values[len(cur.Values)-1].IsPtr && cur.Values[len(cur.Values)-1].Name == "" && !cur.Values[len(cur.Values)-1].IsAggregate
-//@   assert after-store Args.Values#3: [pointerLikenessDependsOnValueOnly C01] len(cur.Values) >= 1 && (cur.Values[len(cur.Values)-1].IsPtr <==> (524288 < cur.Values[len(cur.Values)-1].Value && cur.Values[len(cur.Values)-1].Value < 9223372036854775807)) && cur.Values[len(cur.Values)-1].Name == "" && !cur.Values[len(cur.Values)-1].IsAggregate && !cur.Values[len(cur.Values)-1].IsOffsetTooLarge && (cur.Values[len(cur.Values)-1].IsInaccurate <==> inaccurate)
+//@   assert after-store Args.Values#3: [pointerLikenessDependsOnValueOnly C01 C15] len(cur.Values) >= 1 && (cur.Values[len(cur.Values)-1].IsPtr <==> (524288 < cur.Values[len(cur.Values)-1].Value && cur.Values[len(cur.Values)-1].Value < 9223372036854775807)) && cur.Values[len(cur.Values)-1].Name == "" && !cur.Values[len(cur.Values)-1].IsAggregate && !cur.Values[len(cur.Values)-1].IsOffsetTooLarge && (cur.Values[len(cur.Values)-1].IsInaccurate <==> inaccurate)
 //@   loop 0: invariant -1 <= rangeindex && 0 <= depth && depth < 6 && (forall k :: 0 <= k && k <= depth ==> stack[k] != nil && fresh(stack[k]) && live(stack[k]) && (stack[k].Values == nil || fresh(stack[k].Values)))
 //@   loop 1: invariant 0 <= depth && depth < 6 && 0 <= i && (forall k :: 0 <= k && k <= depth ==> stack[k] != nil && fresh(stack[k]) && live(stack[k]) && (stack[k].Values == nil || fresh(stack[k].Values)))
 //@   loop 1: invariant [descendOneLevelPerOpeningBracket C01] depth == d0 + i && nOpen == opened && i <= opened
